@@ -30,7 +30,9 @@ RULE = ("every genome of <= 3 (thorough: 4) contigs, plus one ignored and one un
         "characters, the unknown name by a near copy of a genome name (two characters exchanged at every distance / around "
         "every power of two, one character replaced, truncated, extended), in-memory and streamed routes; tables whose contig "
         "column was already ENCODED BY ANOTHER genome object (other order, fewer, more, same contigs; ignored contig at every "
-        "position): refusal or exact attribution (op mem_pre). Non-trivial = data order differs from genome order, or an unknown / ignored / absent contig")
+        "position): refusal or exact attribution (op mem_pre). Round 8: stranded=True on the streamed entry points (tables "
+        "with a strand column, bed6 files); batches of small cases of every consumer run in a child interpreter with -O / "
+        "-OO / PYTHONOPTIMIZE=1 (op opt: a demanded error must not be an assert). Non-trivial = data order differs from genome order, or an unknown / ignored / absent contig")
 EXHAUSTIVE = {"quick": False, "thorough": False}
 MODEL_OPS = {"mem_pair", "iter", "iter_zip", "genome_mask", "genome_compute", "track", "ms", "ms_zip", "jaccard", "forbes", "left_join"}
 PARALLEL = 16
